@@ -214,3 +214,31 @@ def eval_parallel(module, cases, *, tag=None, chunks=12, timeout=1800, skipped=N
             outs.extend(o)
             ress.extend(r)
     return outs, ress
+
+
+def run_apalache(module, *, init, inv, length, next_=None, cinit=None, timeout=900, tag=None):
+    """apalache-mc check on spec/<module>.tla.  Returns "ok" (no error up to `length`), "error" (counterexample found);
+    anything else (timeout, typing error, tool missing) raises MachineryError."""
+    import subprocess, shutil as _sh
+    tag = tag or module
+    outdir = os.path.join(OUT, "apalache", "%s-%d" % (tag, os.getpid()))
+    _sh.rmtree(outdir, ignore_errors=True)
+    os.makedirs(outdir, exist_ok=True)
+    cmd = ["apalache-mc", "check", "--init=" + init, "--inv=" + inv, "--length=%d" % length, "--out-dir=" + outdir]
+    if next_:
+        cmd.append("--next=" + next_)
+    if cinit:
+        cmd.append("--cinit=" + cinit)
+    cmd.append(module + ".tla")
+    try:
+        p = subprocess.run(cmd, cwd=SPEC, capture_output=True, text=True, timeout=timeout)
+    except (subprocess.TimeoutExpired, FileNotFoundError) as ex:
+        raise MachineryError("apalache %s: %s" % (tag, ex))
+    finally:
+        _sh.rmtree(outdir, ignore_errors=True)
+    out = p.stdout + p.stderr
+    if "EXITCODE: OK" in out and "no error" in out:
+        return "ok"
+    if "Checker has found an error" in out:
+        return "error"
+    raise MachineryError("apalache %s gave no verdict:\n%s" % (tag, out[-2000:]))
